@@ -56,6 +56,13 @@ pub fn asan(args: &Args, which: &str, prop: &str, ev: &mut Evidence) {
     let exe = format!("{target}/x86_64-unknown-linux-gnu/debug/vffi");
     let scratch = root.join("out").join("asan-root");
     let _ = std::fs::create_dir_all(&scratch);
+    // the workload needs the fixture PKI and the TLS peer; evidence and replays stay in the scratch root
+    for d in ["fixtures", "peers", "known_findings.txt"] {
+        let link = scratch.join(d);
+        if std::fs::symlink_metadata(&link).is_err() {
+            let _ = std::os::unix::fs::symlink(root.join(d), &link);
+        }
+    }
     let seed = (args.seed as i64).to_string();
     let r = run_leg(
         &exe,
